@@ -1,6 +1,7 @@
 import I2N.Lemmas.Trav
 import I2N.Lemmas.TravProgress
 import I2N.Lemmas.TravTerm
+import I2N.Lemmas.TravGlobal
 import I2N.Model.TravMon
 /-!
 # C02 — Traversal terminates and every selected test gets a definite result  (partial by design)
@@ -597,5 +598,188 @@ def gUnx : Graph :=
 
 theorem unexplored_orphan_spins : I2N.Trav.Term.rankedB gUnx = true ∧ edgeSymB gUnx = true ∧
     (runLoop gUnx 0 25 (initState gUnx 3 []) []).2 = [Event.raise "net1" "fuel"] := by decide
+
+/-! ## Termination ACROSS suspensions: a single worker (`Lemmas/TravGlobal.lean`)
+
+The scheduler view of a run of a graph with ONE worker: a list of steps `(outcome of the awaited test, fuel)`; the state
+evolves by `resume g s 0 out fuel` (`runSteps`), starting from `initState g ncls store` (pre-parsed: nothing hidden).
+Static hypotheses, all decidable: one worker, `rankedB` (acyclic), `edgeSymB` (edges recorded at both ends), `noFlatB` (no
+flat node but the shared root), `graphWF` (edge ends are node indices), a register record for every class; every step
+has `fuel ≥ bound g`.  Outcomes are arbitrary: any status, results that never arrive (`status = none`), any duration. -/
+
+open I2N.Trav.Term I2N.Trav.Global in
+/-- **single_worker_never_bounces.**  With one worker nobody else can hold a `started` mark, so `is_occupied` is false
+whenever the worker examines a node: along EVERY run the worker never enters the back-off branch — its program counter
+is never `bounce`, its back-off record stays empty, no `max_concurrent_tries` is ever bumped — and after every step it
+is suspended inside a test (result wait `≤ 10`), has left the loop through the shared root (`done`) or died with an
+exception (`failed`); in particular no block runs out of fuel. -/
+theorem single_worker_never_bounces (g : Graph) (h1 : g.workers.length = 1) (hr : rankedB g = true)
+    (hsym : edgeSymB g = true) (hflat : noFlatB g = true) (hwf : graphWF g = true) (ncls : Nat)
+    (hcls : ∀ n, n < g.nodes.length → (g.node n).cls < ncls) (store : List (String × List (String × String)))
+    (steps : List (Outcome × Nat)) (hfuel : ∀ x ∈ steps, bound g ≤ x.2) :
+    ((runSteps g (initState g ncls store) steps).wd 0).pc ≠ .bounce ∧
+    ((runSteps g (initState g ncls store) steps).wd 0).occAt = [] ∧
+    NoBump (runSteps g (initState g ncls store) steps) ∧
+    (steps ≠ [] →
+      (∃ n ph dir uid tag wait, ((runSteps g (initState g ncls store) steps).wd 0).pc = .test n ph dir uid tag wait ∧ wait ≤ 10) ∨
+      ((runSteps g (initState g ncls store) steps).wd 0).pc = .done ∨
+      ((runSteps g (initState g ncls store) steps).wd 0).pc = .failed) := by
+  have st : Static g ncls := ⟨h1, hr, hsym, hflat, hwf, hcls⟩
+  obtain ⟨y, hfin⟩ := run_ginv st steps _ (ginv_init st store) hfuel
+  have key : steps ≠ [] →
+      (∃ n ph dir uid tag wait, ((runSteps g (initState g ncls store) steps).wd 0).pc = .test n ph dir uid tag wait ∧ wait ≤ 10) ∨
+      ((runSteps g (initState g ncls store) steps).wd 0).pc = .done ∨
+      ((runSteps g (initState g ncls store) steps).wd 0).pc = .failed := by
+    intro hne
+    have hf := hfin hne
+    cases hpc : ((runSteps g (initState g ncls store) steps).wd 0).pc with
+    | test n ph dir uid tag wait => exact Or.inl ⟨n, ph, dir, uid, tag, wait, rfl, y.wait n ph dir uid tag wait hpc⟩
+    | done => exact Or.inr (Or.inl rfl)
+    | failed => exact Or.inr (Or.inr rfl)
+    | loop => rw [hpc] at hf; cases hf
+    | bounce => rw [hpc] at hf; cases hf
+  refine ⟨?_, y.occ, y.reachP.noBump, key⟩
+  intro hb
+  cases steps with
+  | nil =>
+    have hwd : (initState g ncls store []).wd 0 = { path := [g.root] } := by
+      have hv : 0 < g.workers.length := by rw [h1]; exact Nat.one_pos
+      unfold initState State.wd
+      simp only [List.getD_eq_getElem?_getD, List.getElem?_map, List.getElem?_eq_getElem hv]
+      rfl
+    have hb' : ((initState g ncls store []).wd 0).pc = .bounce := hb
+    rw [hwd] at hb'; cases hb'
+  | cons a r =>
+    rcases key (by simp) with ⟨_, _, _, _, _, _, h, _⟩ | h | h <;> rw [h] at hb <;> cases hb
+
+open I2N.Trav.Term I2N.Trav.Global in
+/-- **single_worker_terminates_partial** (termination across suspensions, one worker).  Extra decidable hypotheses:
+`noRootsB g` — no object roots (no two-step creations) — and `classesOKB g` — every class is covered by a budget theorem
+of C03: a class of stateless tests whose copies agree on `max_tries`, or a class of setup tests whose copies agree on
+`max_tries` and the scope shape, whose result names match the scope filter (`statefulClass`) and whose
+`max_concurrent_tries` is unset or `≤ max(max_tries, 1)`.  Then there is an explicit number depending on the static graph
+only, `stepBound g = 23·Σ_n max(max_tries n, 1) + 23`, such that after ANY `stepBound g` (or more) `resume` steps — whatever
+the tests do: any statuses incl. FAIL/ERROR, results that never arrive, any durations — the worker is `done` or `failed`:
+the traversal ends after at most `stepBound g` suspensions.
+
+Why: nobody bounces (`single_worker_never_bounces`), so a step that does not end the traversal is a tick of the result wait
+(at most 10 per execution) or ends an execution and starts the next one, which appends a result (the UNKNOWN placeholder)
+to a node; `23·#results + (1 + wait)` strictly grows with every such step (`Global.resume_cnt`), and `#results` never exceeds
+`Σ_n max(max_tries n, 1)` by the retry budgets (`budget_stateless`, `budget_stateful` of C03; no bump as nobody bounces).
+
+MISSING for the full statement: (1) object roots — the two-step creation files results under the name of the pre-step
+and the C03 budget of roots is proved for `max_tries ≤ 1` only; the counter argument also needs "a placeholder tag occurs
+once" for roots, which `Basic` does not provide; (2) classes whose copies disagree on `max_tries`/shape or whose names do
+not match the scope filter (see `design.d/C02.md`); (3) `max_concurrent_tries > max(max_tries, 1)` (the budget then depends
+on the threshold).  The conditional form without (2)/(3), given any bound on the number of results, is
+`single_worker_terminates_of_result_bound`. -/
+theorem single_worker_terminates_partial (g : Graph) (h1 : g.workers.length = 1) (hr : rankedB g = true)
+    (hsym : edgeSymB g = true) (hflat : noFlatB g = true) (hwf : graphWF g = true) (ncls : Nat)
+    (hcls : ∀ n, n < g.nodes.length → (g.node n).cls < ncls) (hroots : noRootsB g = true) (hcl : classesOKB g = true)
+    (store : List (String × List (String × String)))
+    (steps : List (Outcome × Nat)) (hfuel : ∀ x ∈ steps, bound g ≤ x.2) (hlen : stepBound g ≤ steps.length) :
+    ((runSteps g (initState g ncls store) steps).wd 0).pc = .done ∨
+    ((runSteps g (initState g ncls store) steps).wd 0).pc = .failed := by
+  have st : Static g ncls := ⟨h1, hr, hsym, hflat, hwf, hcls⟩
+  have h := run_over st hroots store (resultBound g) (fun s hs => total_le_resultBound st hcl hs) steps hfuel hlen
+  cases hpc : ((runSteps g (initState g ncls store) steps).wd 0).pc with
+  | done => exact Or.inl rfl
+  | failed => exact Or.inr rfl
+  | test n ph dir uid tag wait => rw [hpc] at h; cases h
+  | loop => rw [hpc] at h; cases h
+  | bounce => rw [hpc] at h; cases h
+
+open I2N.Trav.Term I2N.Trav.Global in
+/-- the conditional form: for graphs without object roots ANY bound `R` on the number of results (placeholders included)
+of the states reachable without over-waiting (`ReachableP`) gives termination within `23·R + 23` steps -/
+theorem single_worker_terminates_of_result_bound (g : Graph) (h1 : g.workers.length = 1) (hr : rankedB g = true)
+    (hsym : edgeSymB g = true) (hflat : noFlatB g = true) (hwf : graphWF g = true) (ncls : Nat)
+    (hcls : ∀ n, n < g.nodes.length → (g.node n).cls < ncls) (hroots : noRootsB g = true)
+    (store : List (String × List (String × String))) (R : Nat)
+    (hR : ∀ s, ReachableP g ncls store s → total g s ≤ R)
+    (steps : List (Outcome × Nat)) (hfuel : ∀ x ∈ steps, bound g ≤ x.2) (hlen : 23 * R + 23 ≤ steps.length) :
+    ((runSteps g (initState g ncls store) steps).wd 0).pc = .done ∨
+    ((runSteps g (initState g ncls store) steps).wd 0).pc = .failed := by
+  have st : Static g ncls := ⟨h1, hr, hsym, hflat, hwf, hcls⟩
+  have h := run_over st hroots store R hR steps hfuel hlen
+  cases hpc : ((runSteps g (initState g ncls store) steps).wd 0).pc with
+  | done => exact Or.inl rfl
+  | failed => exact Or.inr rfl
+  | test n ph dir uid tag wait => rw [hpc] at h; cases h
+  | loop => rw [hpc] at h; cases h
+  | bounce => rw [hpc] at h; cases h
+
+/-- "is `done`" / "waits for the result of node `n` with counter `wait`", for the examples -/
+def pcIsDone : Pc → Bool
+  | .done => true
+  | _ => false
+
+def pcWaitOf : Pc → Option (Nat × Nat)
+  | .test n _ _ _ _ wait => some (n, wait)
+  | _ => none
+
+/-- a diamond with real tests: a setup test `a` (sets a state), `b` with `max_tries = 2`, `c`, and `d` below both -/
+def gRun : Graph :=
+  { workers := [{ id := "net1", swarm := "localhost" }],
+    nodes := [{ cls := 0, owner := some 0, name := "root.net1", pfx := "0", sharedRoot := true, cleanup := [(1, ["vm1"])] },
+              { cls := 1, owner := some 0, name := "a.net1", pfx := "1", setup := [(0, ["vm1"])],
+                cleanup := [(2, ["vm1"]), (3, ["vm1"])], sets := [("vm1", "a")], objs := ["vm1"] },
+              { cls := 2, owner := some 0, name := "b.net1", pfx := "2", setup := [(1, ["vm1"])],
+                cleanup := [(4, ["vm1"])], maxTries := some 2 },
+              { cls := 3, owner := some 0, name := "c.net1", pfx := "3", setup := [(1, ["vm1"])],
+                cleanup := [(4, ["vm1"])] },
+              { cls := 4, owner := some 0, name := "d.net1", pfx := "4", setup := [(2, ["vm1"]), (3, ["vm1"])] }],
+    root := 0 }
+
+/-- a run of `gRun`: `a` passes, `b` fails (and is retried later: `max_tries = 2`), the result of `c` never arrives (ten
+ticks of the result wait, then the default), the retry of `b` and `d` pass -/
+def runOfGRun : List (Outcome × Nat) :=
+  [(⟨none, 0⟩, 274), (⟨some "PASS", 1⟩, 274), (⟨some "FAIL", 1⟩, 274)] ++ List.replicate 11 (⟨none, 0⟩, 274) ++
+    [(⟨some "PASS", 1⟩, 274), (⟨some "PASS", 1⟩, 274)]
+
+/-- the hypotheses of the single-worker theorems hold for `gRun` -/
+example : gRun.workers.length = 1 ∧ I2N.Trav.Term.rankedB gRun = true ∧ edgeSymB gRun = true ∧
+    I2N.Trav.Term.noFlatB gRun = true ∧ graphWF gRun = true ∧ I2N.Trav.Global.noRootsB gRun = true ∧
+    I2N.Trav.Global.classesOKB gRun = true ∧ I2N.Trav.Term.bound gRun = 274 ∧ I2N.Trav.Global.stepBound gRun = 161 := by
+  decide +kernel
+/-- the run above ends with `done` after 16 steps — well within `stepBound gRun = 161` — having been inside the result
+wait of `c` with `wait = 10`, and having started `b` twice -/
+example : pcIsDone ((I2N.Trav.Global.runSteps gRun (initState gRun 5 []) runOfGRun).wd 0).pc = true ∧
+    pcIsDone ((I2N.Trav.Global.runSteps gRun (initState gRun 5 []) (runOfGRun.take 15)).wd 0).pc = false ∧
+    pcWaitOf ((I2N.Trav.Global.runSteps gRun (initState gRun 5 []) (runOfGRun.take 13)).wd 0).pc = some (3, 10) ∧
+    ((I2N.Trav.Global.runSteps gRun (initState gRun 5 []) runOfGRun).nd 2).results.map (·.status) = ["FAIL", "PASS"] := by
+  decide +kernel
+example := single_worker_never_bounces gRun (by decide) (by decide) (by decide) (by decide) (by decide) 5 (by decide) []
+  runOfGRun (by decide)
+example := single_worker_terminates_partial gRun (by decide) (by decide) (by decide) (by decide) (by decide) 5 (by decide)
+  (by decide) (by decide +kernel) [] (List.replicate 161 (⟨none, 0⟩, 274))
+  (fun x hx => by rw [List.eq_of_mem_replicate hx]; decide) (by rw [List.length_replicate]; decide)
+
+/-- Witness that a hypothesis like `classesOKB` cannot be dropped IN THE MODEL (a graph no parser builds: two copies of
+one class that both concern the same worker).  Setup class 1, scope shape `own` (result filter `"localhost.net1"`): copy 1
+is named `a.localhost.net1` (`max_tries = 1`), copy 2 — reached through another parent — is named `a.net1` (`max_tries = 3`).
+Copy 1 runs once; its result is counted by the rerun rule of copy 2 (1 < 3), the results of copy 2 itself are not
+(their name does not contain the filter string): copy 2 is re-run without end. -/
+def gMis : Graph :=
+  { workers := [{ id := "net1", swarm := "localhost" }],
+    nodes := [{ cls := 0, owner := some 0, name := "root.net1", pfx := "0", sharedRoot := true,
+                cleanup := [(1, ["vm1"]), (3, ["vm1"])] },
+              { cls := 1, owner := some 0, name := "a.localhost.net1", pfx := "1", setup := [(0, ["vm1"])],
+                sets := [("vm1", "a")], objs := ["vm1"], shape := .own, maxTries := some 1 },
+              { cls := 1, owner := some 0, name := "a.net1", pfx := "2", setup := [(3, ["vm1"])],
+                sets := [("vm1", "a")], objs := ["vm1"], shape := .own, maxTries := some 3 },
+              { cls := 2, owner := some 0, name := "p.net1", pfx := "3", setup := [(0, ["vm1"])], cleanup := [(2, ["vm1"])] }],
+    root := 0 }
+
+/-- `gMis` meets every hypothesis of `single_worker_terminates_partial` but `classesOKB`; with all tests passing, after 12
+steps the worker is inside the 10th execution of copy 2 (`max_tries = 3`), each step having been one more execution of
+it (`#eval` shows the same for any number of steps tried, e.g. 168 results after 170 steps, `stepBound gMis = 161`). -/
+theorem unmatched_copy_reruns :
+    gMis.workers.length = 1 ∧ I2N.Trav.Term.rankedB gMis = true ∧ edgeSymB gMis = true ∧
+    I2N.Trav.Term.noFlatB gMis = true ∧ graphWF gMis = true ∧ I2N.Trav.Global.noRootsB gMis = true ∧
+    I2N.Trav.Global.classesOKB gMis = false ∧ I2N.Trav.Term.bound gMis = 144 ∧
+    (fun s : State => (pcWaitOf (s.wd 0).pc, (s.nd 2).results.length))
+      (I2N.Trav.Global.runSteps gMis (initState gMis 3 []) (List.replicate 12 (⟨some "PASS", 1⟩, 144))) = (some (2, 0), 10) := by
+  decide +kernel
 
 end I2N.Props.C02
